@@ -535,7 +535,7 @@ def _dist_cases(tier):
                      "validate_args": draw(st.sampled_from([None, True, False]))})
         # history of calls on the ONE distribution object after the basic checks (must not matter, cache on or off)
         case["history"] = draw(st.sampled_from(["none", "A_B_A", "resample_then_A", "second_distribution_on_the_walk",
-                                                "edit_value_in_place", "edit_result_in_place"]))
+                                                "edit_value_in_place", "edit_result_in_place", "edit_sample_in_place"]))
         case["seed2"] = draw(st.integers(0, 2 ** 31 - 1))
         return case
 
@@ -549,11 +549,11 @@ def _dist_cases(tier):
               "clear_cache(). Also models with zero-probability tokens / logits of +-1e6 / vocabularies of 15..33 expanded from a seed, "
               "and call histories on the one distribution object: log_prob(A), log_prob(B), log_prob(A); a new sample before "
               "log_prob(A); a second distribution on the same walk used in between; (behind ENABLE_CACHE_ALIASING) tensors handed "
-              "to / received from the distribution edited in place",
+              "to / received from the distribution (incl. the tensor sample() returned) edited in place",
           required_classes=["sample_shape_empty", "batch_none", "batched", "sample_shorter_than_limit", "cache_on", "cache_off",
                             "zero_probability_tokens", "extreme_logits", "vocabulary_about_16", "vocabulary_about_32",
                             "samples_16_or_more", "history_A_B_A", "history_resample_then_A",
-                            "history_second_distribution_on_the_walk"])
+                            "history_second_distribution_on_the_walk", "history_edit_sample_in_place"])
 def _dist_check(case):
     import torch
     from pydrobert.torch.modules import RandomWalk
@@ -685,6 +685,17 @@ def _dist_check(case):
             cl.add("history_edit_value_in_place")
             if case["cache"]:
                 cl.add("cached_value_edited_in_place")
+    elif hist == "edit_sample_in_place" and ENABLE_CACHE_ALIASING:
+        torch.manual_seed(case["seed2"])
+        s_ = dist.sample(torch.Size(sshape))  # the caller owns what sample() returned ...
+        first = s_.reshape(-1, s_.size(-1))[0]
+        new0 = (int(first[0]) + 1) % V
+        if s_.numel() and V >= 2 and (s_.size(-1) == T or eos is None or new0 == eos or eos in [int(x) for x in first[1:]]):
+            first[0] = new0  # ... and edits it in place before asking for its log-probability
+            same(dist.log_prob(s_), s_, "log_prob(s) after the tensor returned by sample() was edited in place")
+            cl.add("history_edit_sample_in_place")
+            if case["cache"]:
+                cl.add("cached_sample_edited_in_place")
     elif hist == "edit_result_in_place" and ENABLE_CACHE_ALIASING:
         r = dist.log_prob(A)
         same(r, A, "log_prob(A)")
